@@ -19,7 +19,10 @@ ASSUMPTIONS = ['Frank calibration tolerance 5e-3 in tau (the repository inverts 
                'tau-b computed from its definition']
 
 KINDS = ['gauss', 'family', 'independent', 'monotone', 'antimonotone', 'tau0', 'ties', 'constant',
-         'outside', 'permuted']
+         'outside', 'permuted', 'ranks', 'binary']
+# how the same numbers reach the library: a fresh array, a read-only one, a read-only F-ordered one (what
+# DataFrame.to_numpy() returns) - and, for the two-valued kind, integer or boolean dtype
+FLAVOURS = ['plain', 'plain', 'readonly', 'fortran-readonly']
 
 
 def frank_tol(tau):
@@ -46,14 +49,14 @@ def cases(seed, tier):
             tau = float(rng.choice([rng.uniform(-0.95, 0.95), rng.uniform(-0.05, 0.05),
                                     np.sign(rng.uniform(-1, 1)) * rng.uniform(0.9, 0.999)]))
             out.append({'kind': kind, 'n': n, 'tau': tau, 'fam': str(rng.choice(biv.FAMILIES)),
-                        'seed': int(rng.integers(1 << 31))})
+                        'seed': int(rng.integers(1 << 31)), 'flavour': str(rng.choice(FLAVOURS))})
     return out
 
 
 def dataset(spec):
     rng = rng_for(spec['seed'])
     n, kind, tau = spec['n'], spec['kind'], spec['tau']
-    if kind in ('gauss', 'ties', 'permuted', 'constant', 'outside'):
+    if kind in ('gauss', 'ties', 'permuted', 'constant', 'outside', 'ranks', 'binary'):
         X = samplers.gaussian(float(np.sin(np.pi * tau / 2)), n, rng)
     elif kind == 'family':
         fam = spec['fam']
@@ -90,7 +93,24 @@ def dataset(spec):
         X[:, int(rng.integers(2))] = float(rng.choice([0.0, 0.5, 1.0, rng.random()]))
     if kind == 'outside':
         X[int(rng.integers(n)), int(rng.integers(2))] = float(rng.choice([1 + 1e-9, -1e-9, 1.5, -3.0]))
-    return np.clip(X, 0, 1) if kind not in ('outside',) else X
+    if kind == 'ranks':
+        # rank / n pseudo-observations: the largest value of each column is exactly 1.0
+        from scipy.stats import rankdata
+        X = np.column_stack([rankdata(X[:, 0]), rankdata(X[:, 1])]) / len(X)
+    if kind == 'binary':
+        X = (X > 0.5).astype([np.int64, np.bool_, np.uint8, np.float64][int(rng.integers(4))])
+        return _flavoured(X, spec.get('flavour', 'plain'))
+    X = np.clip(X, 0, 1) if kind not in ('outside',) else X
+    return _flavoured(X, spec.get('flavour', 'plain'))
+
+
+def _flavoured(X, flavour):
+    if flavour == 'fortran-readonly':
+        X = np.asfortranarray(X)
+    if flavour != 'plain':
+        X = X.copy(order='K')
+        X.setflags(write=False)
+    return X
 
 
 def judge_fit(ctx, fam, X, where, probe_prefix='fit'):
